@@ -1327,7 +1327,12 @@ fn main() {
     for h in 0..args.n {
         // ---- one history, executed under up to three schedules ----
         let (max, cache, nkeys) = match mode {
-            Mode::Sched => (rng.range(2, 5), *rng.pick(&[1u64, 1, 2, 2, 3, 3, 25]), rng.range(2, 6)),
+            Mode::Sched => {
+                // half of the histories cannot reach capacity, so their settled state is schedule independent
+                let max = rng.range(2, 5);
+                let nkeys = if rng.chance(1, 2) { rng.range(2, max) } else { rng.range(2, 6) };
+                (max, *rng.pick(&[1u64, 1, 2, 2, 3, 3, 25]), nkeys)
+            }
             Mode::Crash => (rng.range(2, 5), *rng.pick(&[1u64, 2, 3, 25]), rng.range(2, 6)),
             Mode::Cap => (*rng.pick(&[0u64, 1, 1, 2, 2, 2, 3, 3, 4]), *rng.pick(&[1u64, 2, 3, 25]), rng.range(3, 9)),
         };
